@@ -306,13 +306,14 @@ func checkC13(c *Ctx, r *Report) {
 	}
 	r.Add("C13-fullread", "agwpe", "raw Read calls on io.Reader/net.Conn in the package", pkg).OK("%d raw Read call(s) examined; frame and header fields are read with io.ReadFull / binary.Read", nRaw)
 	if fn := c.Func(pkg, "(*frame).ReadFrom"); fn != nil {
-		full := false
-		for _, ci := range callsTo(fn, false, "io.ReadFull", "io.ReadAtLeast") {
-			if strings.HasSuffix(pathOf(ci.Common().Args[1]), ".Data") {
-				full = true
-			}
+		// io.ReadFull / io.ReadAtLeast(len) on the data field, or an equivalent fill loop, in ReadFrom
+		// or in a same-package helper ReadFrom hands the field to (ip_g3.go)
+		full, how := c.readsFully(newProver(c), fn, func(v ssa.Value) bool { return strings.HasSuffix(pathOf(v), ".Data") }, 0)
+		bad := "the data field of a frame is not read with io.ReadFull or an equivalent loop that only stops when the field is full or the reader fails"
+		if how != "" {
+			bad += " (" + how + ")"
 		}
-		r.Check("C13-fullread", fnName(fn), "data field read completely", c.pos(fn.Pos()), full, "io.ReadFull(r, f.Data)", "the data field of a frame is not read with io.ReadFull")
+		r.Check("C13-fullread", fnName(fn), "data field read completely", c.pos(fn.Pos()), full, how, bad)
 	}
 
 	// ---- C13-lossless
@@ -656,12 +657,9 @@ func streamReadRule(c *Ctx, r *Report, fn *ssa.Function, rule, field string) {
 	where := fnName(fn)
 	pParam := fn.Params[1]
 	o := r.Add(rule, where, "Read returns the count copied into p", c.pos(fn.Pos()))
-	var copies []*ssa.Call
-	for _, ci := range callsTo(fn, false, "builtin.copy") {
-		if call, ok := ci.(*ssa.Call); ok && call.Call.Args[0] == ssa.Value(pParam) {
-			copies = append(copies, call)
-		}
-	}
+	// the places where bytes are copied into p: copy(p, x) in Read itself, or a call of a
+	// same-package helper that receives p, copies into it and returns the count (ip_g3.go)
+	copies := deliveriesIn(fn, pParam, map[ssa.Value]bool{fn.Params[0]: true}, field, 0)
 	good := len(copies) > 0
 	why := "Read does not copy into the caller's buffer with copy()"
 	for _, ret := range returnsOf(fn) {
@@ -674,7 +672,7 @@ func streamReadRule(c *Ctx, r *Report, fn *ssa.Function, rule, field string) {
 		}
 		isCopy := false
 		for _, cp := range copies {
-			if v == ssa.Value(cp) {
+			if cp.val != nil && v == cp.val {
 				isCopy = true
 			}
 		}
@@ -743,23 +741,20 @@ func streamReadRule(c *Ctx, r *Report, fn *ssa.Function, rule, field string) {
 	}
 	o = r.Add(rule, where, "the rest of a frame is kept for the next Read", c.pos(fn.Pos()))
 	kept := 0
+	var hows []string
 	for _, cp := range copies {
-		src := cp.Call.Args[1]
-		eachInstr(fn, func(_ *ssa.BasicBlock, _ int, in ssa.Instruction) {
-			st, ok := in.(*ssa.Store)
-			if !ok || !strings.HasSuffix(pathOf(st.Addr), field) {
-				return
-			}
-			if sl, ok := st.Val.(*ssa.Slice); ok && sl.Low == ssa.Value(cp) && sl.High == nil && (sl.X == src || pathOf(sl.X) == pathOf(src)) && instrDominates(cp, st) {
-				kept++
-			}
-		})
+		// x[n:] stored in the field after the copy (in Read, or in the helper that copies, which
+		// must store it into the connection it was called on)
+		if cp.kept {
+			kept++
+		}
+		hows = append(hows, cp.how())
 	}
 	// and served first
 	servedFirst := false
 	for _, cp := range copies {
-		if strings.HasSuffix(pathOf(cp.Call.Args[1]), field) {
-			for _, cd := range condsAt(cp.Block()) {
+		if strings.HasSuffix(cp.src, field) {
+			for _, cd := range condsAt(cp.at.Block()) {
 				if b, ok := cd.V.(*ssa.BinOp); ok && cd.Truth && b.Op == token.GTR && strings.Contains(pathOf(b.X), field) {
 					servedFirst = true
 				}
@@ -768,11 +763,11 @@ func streamReadRule(c *Ctx, r *Report, fn *ssa.Function, rule, field string) {
 			eachInstr(fn, func(_ *ssa.BasicBlock, _ int, in ssa.Instruction) {
 				switch x := in.(type) {
 				case *ssa.Select:
-					if instrDominates(x, cp) {
+					if instrDominates(x, cp.at) {
 						servedFirst = false
 					}
 				case *ssa.UnOp:
-					if x.Op == token.ARROW && instrDominates(x, cp) {
+					if x.Op == token.ARROW && instrDominates(x, cp.at) {
 						servedFirst = false
 					}
 				}
@@ -785,7 +780,7 @@ func streamReadRule(c *Ctx, r *Report, fn *ssa.Function, rule, field string) {
 	case !servedFirst:
 		o.Bad("the kept remainder is not served before the next frame is taken from the channel: bytes are reordered or lost")
 	default:
-		o.OK("each copy stores x[n:] in %s and a non-empty remainder is served before the next frame", strings.TrimPrefix(field, "."))
+		o.OK("each copy stores x[n:] in %s and a non-empty remainder is served before the next frame (%s)", strings.TrimPrefix(field, "."), strings.Join(hows, "; "))
 	}
 }
 
